@@ -92,7 +92,8 @@ Lemma soe_step_bounded : forall (avg err n B : f64),
   RV avg <= RV B -> RV err <= RV B ->
   fin (F64.add avg (F64.div (F64.sub err avg) n)) /\
   0 <= RV (F64.add avg (F64.div (F64.sub err avg) n)) <= RV B /\
-  RV (F64.add avg (F64.div (F64.sub err avg) n)) = rnd (RV avg + rnd (rnd (RV err - RV avg) / RV n)).
+  RV (F64.add avg (F64.div (F64.sub err avg) n)) = rnd (RV avg + rnd (rnd (RV err - RV avg) / RV n)) /\
+  0 <= RV avg + rnd (rnd (RV err - RV avg) / RV n) <= RV B.
 Proof.
   intros avg err n B Fa Pa Fe Pe Fn Pn Hn Ba Be.
   assert (S1 : RV (F64.neg avg) <= RV err - RV avg <= RV err) by (rewrite R_neg; lra).
@@ -140,7 +141,7 @@ Proof.
   destruct (add_sq avg q F64.zero B Fa Fq S3) as [Fr Er].
   split; [exact Fr|]. split.
   - rewrite Er. rewrite <- R_zero. apply rnd_between; try apply fmt_RV. exact S3.
-  - rewrite Er, Eq, Ed. reflexivity.
+  - split; [rewrite Er, Eq, Ed; reflexivity|]. rewrite <- Ed, <- Eq. rewrite R_zero in S3. exact S3.
 Qed.
 
 (* ---- the counter n ------------------------------------------------------ *)
@@ -176,7 +177,7 @@ Proof.
   destruct (cnt_step n Cn) as [Cn' Pn'].
   assert (H2 : RV avg = 0 \/ 2 <= RV (F64.add n one)).
   { destruct Hz as [Z|P1]; [left; exact Z|right; apply cnt_step_two; assumption]. }
-  destruct (soe_step_bounded avg err (F64.add n one) B Fa Pa Fe Pe (proj1 Cn') Pn' H2 Ba Be) as (Fr & Br & _).
+  destruct (soe_step_bounded avg err (F64.add n one) B Fa Pa Fe Pe (proj1 Cn') Pn' H2 Ba Be) as (Fr & Br & _ & _).
   split; [exact Fr|]. split; [exact Br|]. split; [exact Cn'|]. right. exact Pn'.
 Qed.
 
@@ -347,14 +348,15 @@ Proof. intros B errf l st H I. rewrite <- soe_loop_step1. apply mean_loop_inv; a
 Lemma update_value : forall B st err, mean_inv B st -> err_ok B err ->
   RV (fst (soe_update st err)) =
   rnd (RV (fst st) + rnd (rnd (RV err - RV (fst st)) / RV (F64.add (snd st) one))) /\
-  (RV (fst st) = 0 \/ 2 <= RV (F64.add (snd st) one)) /\ 1 <= RV (F64.add (snd st) one) <= p53.
+  (RV (fst st) = 0 \/ 2 <= RV (F64.add (snd st) one)) /\ 1 <= RV (F64.add (snd st) one) <= p53 /\
+  0 <= RV (fst st) + rnd (rnd (RV err - RV (fst st)) / RV (F64.add (snd st) one)) <= RV B.
 Proof.
   intros B [avg n] err (Fa & [Pa Ba] & Cn & Hz) (Fe & Pe & Be). unfold soe_update. cbn [fst snd] in *.
   destruct (cnt_step n Cn) as [Cn' Pn'].
   assert (H2 : RV avg = 0 \/ 2 <= RV (F64.add n one)).
   { destruct Hz as [Z|P1]; [left; exact Z|right; apply cnt_step_two; assumption]. }
-  destruct (soe_step_bounded avg err (F64.add n one) B Fa Pa Fe Pe (proj1 Cn') Pn' H2 Ba Be) as (_ & _ & V).
-  split; [exact V|]. split; [exact H2|]. split; [exact Pn'|exact (proj2 (proj2 Cn'))].
+  destruct (soe_step_bounded avg err (F64.add n one) B Fa Pa Fe Pe (proj1 Cn') Pn' H2 Ba Be) as (_ & _ & V & W).
+  split; [exact V|]. split; [exact H2|]. split; [split; [exact Pn'|exact (proj2 (proj2 Cn'))]|exact W].
 Qed.
 
 Lemma pos_all : forall B errf l st,
@@ -367,7 +369,7 @@ Proof.
   - cbn [soe_all]. unfold soe_visit.
     assert (Oe : err_ok B (errf e)) by (apply He; left; reflexivity).
     pose proof (mean_update_inv B st (errf e) Hs Oe) as H1.
-    destruct (update_value B st (errf e) Hs Oe) as (V & H2 & Nb).
+    destruct (update_value B st (errf e) Hs Oe) as (V & H2 & Nb & _).
     specialize (IH (soe_update st (errf e)) (fun x Hx => He x (or_intror Hx)) H1).
     destruct (soe_all errf r (soe_update st (errf e))) as [r' st'] eqn:E. cbn [snd fst] in *.
     apply IH. clear IH.
@@ -466,7 +468,7 @@ Lemma inv2_update : forall A B st err, 0 <= RV A -> inv2 A B st -> err_ok2 A B e
 Proof.
   intros A B st err PA (M & N1 & LA) O. pose proof (err_ok2_ok A B err PA O) as O1.
   pose proof (mean_update_inv B st err M O1) as M'.
-  destruct (update_value B st err M O1) as (V & H2 & Nb).
+  destruct (update_value B st err M O1) as (V & H2 & Nb & _).
   split; [exact M'|]. split; [unfold soe_update; cbn [snd]; exact (proj1 Nb)|].
   rewrite V. destruct M as (Fa & [Pa Ba] & Cn & Hz). destruct O as (Fe & Le & Ue).
   apply step_lower_real; try apply fmt_RV; try lra.
@@ -553,4 +555,120 @@ Proof.
     - destruct d; [contradiction|discriminate].
     - intros x Hx. apply in_map_iff in Hx. destruct Hx as (e & <- & He). destruct (H e He) as (_ & L & U). lra. }
   apply Rabs_le. lra.
+Qed.
+
+(* ======================= accuracy: distance to the exact mean ============== *)
+From Flocq Require Import Relative.
+
+Definition u53 : R := / 2 * bpow radix2 (-53 + 1).      (* 2^-53 *)
+Definition heta : R := / 2 * bpow radix2 (-1074).        (* 2^-1075 *)
+
+Lemma rnd_err : forall t, Rabs (rnd t - t) <= u53 * Rabs t + heta.
+Proof.
+  intro t. destruct (error_N_FLT radix2 (-1074) 53 ltac:(lia) (fun x => negb (Z.even x)) t) as (eps & et & He & Ht & _ & E).
+  assert (E' : rnd t = t * (1 + eps) + et) by exact E. rewrite E'.
+  replace (t * (1 + eps) + et - t) with (t * eps + et) by ring.
+  eapply Rle_trans; [apply Rabs_triang|]. rewrite Rabs_mult.
+  assert (He' : Rabs eps <= u53) by exact He. assert (Ht' : Rabs et <= heta) by exact Ht.
+  pose proof (Rabs_pos t). pose proof (Rabs_pos eps). nra.
+Qed.
+
+(* the local error of one iteration *)
+Lemma step_err : forall a e n B : R, fmt B -> 0 <= a <= B -> 0 <= e <= B -> 1 <= n ->
+  0 <= a + rnd (rnd (e - a) / n) <= B ->
+  Rabs (rnd (a + rnd (rnd (e - a) / n)) - (a + (e - a) / n)) <= 3 * (u53 * B + heta).
+Proof.
+  intros a e n B FB Ha He Hn Hq.
+  assert (FnB : fmt (- B)) by (apply generic_format_opp; exact FB).
+  assert (U : 0 <= u53) by (unfold u53; pose proof (bpow_gt_0 radix2 (-53 + 1)); lra).
+  set (t1 := e - a). set (d := rnd t1). set (t2 := d / n). set (q := rnd t2). set (t3 := a + q).
+  assert (A1 : Rabs t1 <= B) by (unfold t1; apply Rabs_le; lra).
+  assert (Bd : - B <= d <= B).
+  { unfold d. apply rnd_between; try assumption. apply Rabs_le_inv in A1. exact A1. }
+  assert (Hi : 0 < / n <= 1).
+  { split; [apply Rinv_0_lt_compat; lra|]. rewrite <- Rinv_1. apply Rinv_le_contravar; lra. }
+  assert (A2 : Rabs t2 <= B).
+  { unfold t2, Rdiv. apply Rabs_le. destruct Hi. destruct Bd. split; nra. }
+  assert (A3 : Rabs t3 <= B) by (unfold t3, q, t2, d, t1; apply Rabs_le; lra).
+  pose proof (rnd_err t1) as E1. pose proof (rnd_err t2) as E2. pose proof (rnd_err t3) as E3.
+  fold d in E1. fold q in E2.
+  assert (C1 : Rabs (d - t1) <= u53 * B + heta) by nra.
+  assert (C2 : Rabs (q - t2) <= u53 * B + heta) by nra.
+  assert (C3 : Rabs (rnd t3 - t3) <= u53 * B + heta) by nra.
+  apply Rabs_le_inv in C1. apply Rabs_le_inv in C2. apply Rabs_le_inv in C3.
+  replace (rnd t3 - (a + t1 / n)) with ((rnd t3 - t3) + (q - t2) + (d - t1) * / n) by (unfold t3, t2, Rdiv; ring).
+  apply Rabs_le. destruct Hi. destruct C1, C2, C3. split; nra.
+Qed.
+
+Definition theta (B : f64) : R := 3 * (u53 * RV B + heta).
+
+Definition acc_inv (B : f64) (k : Z) (S : R) (st : f64 * f64) : Prop :=
+  mean_inv B st /\ RV (snd st) = IZR k /\ (0 <= k)%Z /\
+  Rabs (IZR k * RV (fst st) - S) <= theta B * (IZR k * (IZR k + 1) / 2).
+
+Lemma acc_update : forall B k S st err, acc_inv B k S st -> err_ok B err -> (k + 1 < 2 ^ 53)%Z ->
+  acc_inv B (k + 1) (S + RV err) (soe_update st err).
+Proof.
+  intros B k S st err (M & Nk & K0 & A) O K1.
+  pose proof (mean_update_inv B st err M O) as M'.
+  destruct (update_value B st err M O) as (V & _ & _ & W).
+  assert (Cn : cnt_inv (snd st)) by (destruct M as (_ & _ & C & _); exact C).
+  assert (Nk' : RV (F64.add (snd st) one) = IZR (k + 1)).
+  { rewrite (cnt_step_val _ Cn), Nk, <- plus_IZR. apply rnd_id. apply fmt_IZR. lia. }
+  split; [exact M'|]. split; [unfold soe_update; cbn [snd]; exact Nk'|]. split; [lia|].
+  rewrite V. rewrite Nk' in *.
+  destruct M as (Fa & [Pa Ba] & _ & _). destruct O as (Fe & Pe & Be).
+  assert (N1 : 1 <= IZR (k + 1)) by (apply IZR_le; lia).
+  pose proof (step_err (RV (fst st)) (RV err) (IZR (k + 1)) (RV B) (fmt_RV B) ltac:(lra) ltac:(lra) N1 W) as SE.
+  set (a' := rnd (RV (fst st) + rnd (rnd (RV err - RV (fst st)) / IZR (k + 1)))) in *.
+  set (a := RV (fst st)) in *. set (e := RV err) in *.
+  rewrite plus_IZR in *. set (kk := IZR k) in *.
+  assert (K : 0 <= kk) by (unfold kk; apply IZR_le; exact K0).
+  fold (theta B) in SE.
+  assert (T0 : 0 <= theta B).
+  { unfold theta, u53, heta. pose proof (bpow_gt_0 radix2 (-53 + 1)). pose proof (bpow_gt_0 radix2 (-1074)). nra. }
+  replace ((kk + 1) * a' - (S + e)) with ((kk + 1) * (a' - (a + (e - a) / (kk + 1))) + (kk * a - S)) by (field; lra).
+  apply Rabs_le_inv in SE. apply Rabs_le_inv in A. apply Rabs_le. destruct SE, A. split; nra.
+Qed.
+
+Lemma acc_all : forall B errf l k S st, acc_inv B k S st ->
+  (forall e, In e l -> err_ok B (errf e)) -> (k + Z.of_nat (length l) < 2 ^ 53)%Z ->
+  acc_inv B (k + Z.of_nat (length l)) (S + Rsum (map (fun e => RV (errf e)) l)) (snd (soe_all errf l st)).
+Proof.
+  intros B errf l. induction l as [|e r IH]; intros k S st I H L.
+  - cbn [soe_all snd length map Rsum fold_right]. rewrite Z.add_0_r, Rplus_0_r. exact I.
+  - cbn [soe_all]. unfold soe_visit. cbn [length] in L. rewrite Nat2Z.inj_succ in L.
+    pose proof (acc_update B k S st (errf e) I (H e (or_introl eq_refl)) ltac:(lia)) as I1.
+    specialize (IH (k + 1)%Z (S + RV (errf e)) _ I1 (fun x Hx => H x (or_intror Hx)) ltac:(lia)).
+    destruct (soe_all errf r (soe_update st (errf e))) as [r' st']. cbn [snd] in *.
+    cbn [length map Rsum fold_right]. fold (Rsum (map (fun e0 => RV (errf e0)) r)).
+    rewrite Nat2Z.inj_succ.
+    replace (k + Z.succ (Z.of_nat (length r)))%Z with (k + 1 + Z.of_nat (length r))%Z by lia.
+    replace (S + (RV (errf e) + Rsum (map (fun e0 => RV (errf e0)) r))) with (S + RV (errf e) + Rsum (map (fun e0 => RV (errf e0)) r)) by ring.
+    exact IH.
+Qed.
+
+(* |running mean - exact mean| <= (n + 1) / 2 * 3 * (2^-53 * B + 2^-1075) *)
+Lemma running_mean_accuracy : forall (B : f64) errf d,
+  d <> [] -> 0 <= RV B -> (forall e, In e d -> err_ok B (errf e)) -> (Z.of_nat (length d) < 2 ^ 53)%Z ->
+  let avg := fst (snd (soe_loop errf 1 0 d (F64.zero, F64.zero))) in
+  Rabs (RV avg - Rmean (map (fun e => RV (errf e)) d)) <=
+  (INR (length d) + 1) / 2 * (3 * (u53 * RV B + heta)).
+Proof.
+  intros B errf d Hne PB H L avg. unfold avg. rewrite soe_loop_step1.
+  assert (I0 : acc_inv B 0 0 (F64.zero, F64.zero)).
+  { split; [apply mean_inv_init; exact PB|]. split; [reflexivity|]. split; [lia|].
+    cbn [fst]. rewrite R_zero. replace (0 * 0 - 0) with 0 by ring. rewrite Rabs_R0. lra. }
+  pose proof (acc_all B errf d 0%Z 0 _ I0 H ltac:(lia)) as (_ & _ & _ & A).
+  rewrite Z.add_0_l, Rplus_0_l in A. rewrite <- INR_IZR_INZ in A.
+  set (a := RV (fst (snd (soe_all errf d (F64.zero, F64.zero))))) in *.
+  set (Sx := Rsum (map (fun e => RV (errf e)) d)) in *.
+  unfold Rmean. fold Sx. rewrite map_length.
+  set (n := INR (length d)) in *.
+  assert (P : 0 < n) by (unfold n; apply lt_0_INR; destruct d; [contradiction|cbn; lia]).
+  fold (theta B) in *.
+  replace (a - Sx / n) with ((n * a - Sx) * / n) by (field; lra).
+  rewrite Rabs_mult, (Rabs_pos_eq (/ n)) by (apply Rlt_le, Rinv_0_lt_compat; exact P).
+  apply Rmult_le_reg_r with n; [exact P|]. rewrite Rmult_assoc, Rinv_l, Rmult_1_r by lra.
+  eapply Rle_trans; [exact A|]. unfold theta. right. field.
 Qed.
